@@ -43,9 +43,11 @@ def grin_to_coq(i):
 def hev_to_val(e):
     t = e[0]
     if t == 'up':
-        gr = [] if e[2] is None else [[list(e[2][0]), e[2][1], 1 if e[2][2] else 0]]
-        ll = [] if e[3] is None else [[list(p) for p in e[3]]]
-        return [0, list(e[1]), gr, ll]
+        # the implementation gets the two capability sets; the model the negotiated result
+        lgr, rgr, lll, rll = e[4] if len(e) > 4 else default_caps(e[2], e[3])
+        g = lambda x: [] if x is None else [[list(x[0]), x[1], 1 if x[2] else 0]]
+        l = lambda x: [] if x is None else [[list(p) for p in x]]
+        return [0, list(e[1]), g(lgr), g(rgr), l(lll), l(rll)]
     if t == 'ann': return [1, e[1], e[2], 1 if e[3] else 0, 1 if e[4] else 0]
     if t == 'eor': return [2, e[1]]
     if t == 'down': return [3, e[1]]
@@ -70,70 +72,95 @@ def hev_to_coq(e):
     if t == 'force': return 'HForceDown'
     return '(HSetAdminDown %s)' % cbool(e[1])
 
+# ------------------------------------------------------------- capabilities behind a negotiated result
+def default_caps(gr, ll):
+    return (gr, gr, ll, ll)
+
+def derive_caps(rng, gr, ll):
+    """local/remote GR and LLGR capabilities whose negotiation (RFC 4724 / 9494: family intersection in
+    local order, restart time and stale times from the peer, N bit only if both set it) is (gr, ll)."""
+    if gr is None:
+        k = rng.randint(0, 3)
+        a, b = rng.sample(FAMS, 2)
+        lgr, rgr = [(None, None), (((a,), RT, True), None), (None, ((a,), RT, True)),
+                    (((a,), RT, True), ((b,), RT, True))][k]
+    else:
+        G, rt, nbit = gr
+        extra = [f for f in FAMS if f not in G]
+        rng.shuffle(extra)
+        el = extra[:rng.randint(0, len(extra))]
+        er = [f for f in extra if f not in el][:rng.randint(0, 2)]
+        lf = list(G)
+        for f in el:
+            lf.insert(rng.randint(0, len(lf)), f)
+        # keep G's relative order in the local list: insert extras anywhere
+        rf = list(G) + er
+        rng.shuffle(rf)
+        lb, rb = (True, True) if nbit else rng.choice([(False, False), (True, False), (False, True)])
+        lgr, rgr = (tuple(lf), rng.choice([rt, 30, 300]), lb), (tuple(rf), rt, rb)
+    if ll is None:
+        k = rng.randint(0, 3)
+        a, b = rng.sample(FAMS, 2)
+        lll, rll = [(None, None), (((a, LT),), None), (None, ((a, LT),)), (((a, LT),), ((b, LT),))][k]
+    else:
+        fl = [f for f, _ in ll]
+        extra = [f for f in FAMS if f not in fl]
+        rng.shuffle(extra)
+        el = extra[:rng.randint(0, len(extra))]
+        er = [f for f in extra if f not in el][:rng.randint(0, 2)]
+        ltimes, rtimes = {}, {}
+        for f, t in ll:
+            if rng.random() < 0.3:
+                ltimes[f], rtimes[f] = t, 0          # the peer sends 0: our local time is used
+            else:
+                ltimes[f], rtimes[f] = rng.choice([t, 60]), t
+        lo = [(f, ltimes[f]) for f in fl]
+        for f in el:
+            lo.insert(rng.randint(0, len(lo)), (f, LT))
+        ro = [(f, rtimes[f]) for f in fl] + [(f, LT) for f in er]
+        rng.shuffle(ro)
+        lll, rll = tuple(lo), tuple(ro)
+    return (lgr, rgr, lll, rll)
+
 # ------------------------------------------------------------- known classes
-# decidable predicates of the event history (mirrored by Known_C10_k in Spec/GrSpec.v)
+# Findings C10-1..C10-7 are repaired: no input class is excluded and the theorems carry no
+# Known_* hypothesis.  (When a class is open again, mirror its Coq predicate here and have
+# run_model evaluate the Coq predicate next to every history and compare, as was done for
+# C10-7 before its repair.)
 def known_classes(evs):
-    """set of finding ids whose input class this history belongs to"""
-    ks = set()
-    admin = False
-    sess = None
-    helper = False          # the property allows retained routes (a helper-mode drop happened and is not over)
-    llgr_running = set()    # families whose LLGR period may be running
-    llgr_pending = set()    # LLGR families of the last eligible drop (period starts at restart-timer expiry)
-    for e in evs:
-        t = e[0]
-        if t == 'admin':
-            admin = e[1]
-        elif t == 'up' and sess is None:
-            sess = e
-            gr = set(e[2][0]) if e[2] else set()
-            ll = set(f for f, _ in e[3]) if e[3] else set()
-            if e[2] and e[3] and not gr <= ll:
-                ks.add('C10-4')       # GR families outside the LLGR families: no timer after restart-timer expiry
-            if e[3] and e[2] and not ll <= gr:
-                ks.add('C10-5')       # LLGR families outside the GR families: kept but not marked
-            if llgr_running and gr and not llgr_running <= gr:
-                ks.add('C10-3')       # re-established during LLGR without re-negotiating GR for a staling family
-            llgr_running = set(); llgr_pending = set()
-        elif t == 'rtimer' and sess is None:
-            llgr_running |= llgr_pending
-        elif t == 'ann' and e[4]:
-            ks.add('C10-6')           # fresh route carrying LLGR_STALE is purged with the stale ones
-        elif t == 'down' and sess is not None:
-            nbit = bool(sess[2] and sess[2][2])
-            applies = gr_applies(e[1], nbit) and not admin
-            if (sess[2] or sess[3]) and not (applies if sess[2] else (e[1] == 0 and not admin)):
-                ks.add('C10-2')       # GR/LLGR negotiated, drop reason not eligible: routes stale-marked, nothing armed
-            if sess[3]:
-                if sess[2] is None:
-                    llgr_running = set(f for f, _ in sess[3])
-                else:
-                    llgr_pending = set(f for f, _ in sess[3])
-            sess = None
-        elif t == 'fail':
-            ks.add('C10-1')           # connection attempt that ends before Established
-    return ks
+    """set of open finding ids whose input class this history belongs to"""
+    return set()
 
 class Prop:
     pid = 'C10'
     props_file = 'Props/C10.v'
-    required_theorems = ['helper_mode_entry_arms_timer', 'drop_never_leaves_helper_mode', 'failed_reconnect_keeps_timer', 'no_llgr_dropped_at_llgr_start', 'no_llgr_dropped_at_llgr_only_drop', 'fresh_routes_survive_purge_outside_known', 'fresh_routes_survive_purge_refuted', 'purged_by_expiry_or_eor', 'non_negotiated_families_dropped_at_once', 'stale_implies_timer_or_eor_refuted', 'stale_implies_timer_or_eor_partial', 'non_gr_reasons_retain_nothing_refuted', 'non_gr_reasons_retain_nothing_outside_known']
+    required_theorems = ['helper_mode_entry_arms_timer', 'drop_never_leaves_helper_mode', 'stale_implies_timer_or_eor', 'phase_timer_consistency', 'failed_reconnect_keeps_timer', 'no_llgr_dropped_at_llgr_start', 'no_llgr_dropped_at_llgr_only_drop', 'fresh_routes_survive_purge', 'live_session_routes_survive_purge', 'purged_by_expiry_or_eor', 'non_negotiated_families_dropped_at_once', 'non_gr_reasons_retain_nothing']
     correspondence_name = ('Model/Gr.v gr_step vs daemon/src/gr.rs GrState::process (harness/daemon/gr_hx.rs); '
                            'Model/Gr.v h_step vs apply_disconnect / process_effects / timer handlers / unregister_peer on a real '
                            'PeerContext + TableManager (harness/daemon/event_gr_hx.rs)')
     rule = ('pure machine: every input sequence of length <= d over a 13-letter alphabet (2 families, GR/LLGR parameter classes) '
-            'plus seeded random sequences; glue: seeded random event histories of one peer (up/announce/eor/down with each reason/'
-            'failed connect/timer expiries/force-down/admin-down), mostly GR-eligible plus a stream per known class; '
-            'a case is non-trivial when a route is retained stale at some step; distinct = distinct observation trajectories')
+            'plus seeded random sequences; glue: seeded random event histories of one peer (up with derived local/remote GR and LLGR '
+            'capabilities, announce with two path ids per prefix, eor, down with each reason class, failed connect, timer expiries, '
+            'force-down, admin-down), including reconnects that do / do not re-negotiate GR/LLGR, GR/LLGR families outside each other '
+            'and outside the session families; a case is non-trivial when a route is retained stale at some step; '
+            'distinct = distinct observation trajectories')
     exhaustive = {'quick': True, 'thorough': True}
-    trusted_base = ['glue call sites that are inline in session_loop()/run() (the disconnect block, the admin-down override, the '
-                    'End-of-RIB gate on negotiated_gr) are replicated line by line in harness/daemon/event_gr_hx.rs; '
-                    'apply_disconnect, gr_on_disconnect, families_to_drop_on_disconnect, process_effects, unregister_peer, '
-                    'gr_restart_timer_expired, llgr_timer_expired, spawn_llgr_timers, force_down run as they are',
+    trusted_base = ['the glue runs as it is on a real Global / PeerContext / TableManager / PeerSession::new_for_test: apply_outputs '
+                    '(PeerCodec::negotiate, negotiate_gr, negotiate_llgr, on_established, the effects it raises), process_effects, '
+                    'PeerSession::teardown (the end of session_loop, split out by a behaviour-preserving hook commit), apply_disconnect, '
+                    'gr_on_disconnect, families_to_drop_on_disconnect, unregister_peer, gr_restart_timer_expired, llgr_timer_expired, '
+                    'spawn_llgr_timers, force_down, Global::add_peer',
+                    'still hand-built by the harness: the two FSM outputs SessionNegotiated / SessionEstablished fed to apply_outputs '
+                    '(PeerFsm itself is property C07), the GrEorReceived effect together with its gate on negotiated_gr (replica of three '
+                    'lines of the UPDATE receive path), the initial DisconnectInfo of a connection that never established, the order '
+                    'teardown -> apply_disconnect of run(), the admin_down field set directly on the Peer record (not through the gRPC handler)',
                     'timers are fired through their oneshot sender (the RunNow path); a timer counts as armed while its sender is '
-                    'present and not closed; wall-clock expiry is not exercised']
+                    'present and not closed; wall-clock expiry is not exercised; LLGR/restart durations are observed as negotiated values, '
+                    'not as the durations handed to tokio']
     assumptions = ['one peer, one shard; the restarting-speaker role (selection_deferral) is inactive',
-                   'at most one Established session at a time (property C07)']
+                   'at most one Established session at a time (property C07)',
+                   'a route is identified by (family, prefix, path id); attributes other than the NO_LLGR / LLGR_STALE communities, '
+                   'best-path order and distribution to other peers are outside the model']
 
     def case_to_val(self, c):
         if c['kind'] == 'gr':
@@ -184,21 +211,23 @@ class Prop:
             if up is None:
                 if x < 0.55:
                     fams = rng.sample(F, rng.choice([1, 2, 2, 3]))
-                    if mode == 'nogr' and rng.random() < 0.5:
+                    if (mode == 'nogr' and rng.random() < 0.5) or rng.random() < 0.2:
                         gr, ll = None, None
                     else:
                         grf = [f for f in fams if rng.random() < 0.8] or [fams[0]]
+                        if mode == 'offfam':
+                            grf += [f for f in F if f not in fams and rng.random() < 0.6]
                         nbit = rng.random() < 0.5
                         gr = (tuple(grf), RT, nbit)
                         llm = rng.random()
                         if mode == 'clean':
                             ll = tuple((f, LT) for f in grf) if llm < 0.4 else None
                         else:
-                            lf = [f for f in fams if rng.random() < 0.6]
+                            lf = [f for f in (F if mode == 'offfam' else fams) if rng.random() < 0.6]
                             ll = tuple((f, LT) for f in lf) if lf and llm < 0.7 else None
                             if mode != 'clean' and rng.random() < 0.15:
                                 gr = None
-                    evs.append(('up', tuple(fams), gr, ll)); up = evs[-1]
+                    evs.append(('up', tuple(fams), gr, ll, derive_caps(rng, gr, ll))); up = evs[-1]
                 elif x < 0.70:
                     evs.append(('rtimer',))
                 elif x < 0.85:
@@ -237,7 +266,7 @@ class Prop:
         for _ in range(300 if tier == 'quick' else 5000):
             cases.append(dict(kind='gr', ins=[rng.choice(al) for _ in range(rng.randint(4, 14))]))
         nh = 1200 if tier == 'quick' else 12000
-        modes = ['clean'] * 6 + ['nogr', 'any', 'any', 'fail', 'force', 'comm', 'admin', 'mixed']
+        modes = ['clean'] * 6 + ['nogr', 'any', 'any', 'fail', 'force', 'comm', 'admin', 'mixed', 'offfam']
         for _ in range(nh):
             cases.append(dict(kind='h', evs=self.rand_history(rng, rng.choice(modes))))
         return cases
@@ -266,7 +295,7 @@ class Prop:
             return obs
         if case['kind'] == 'gr':
             return [[[[o[0], sorted(o[1])] if o[0] in (2, 5) else o for o in outs], b] for outs, b in obs]
-        return [[a, b, sorted(lt), sorted(rs)] for a, b, lt, rs in obs]
+        return [[a, b, sorted(lt), sorted(rs), ng] for a, b, lt, rs, ng in obs]
 
     # ---- Spec oracle (python mirror of Spec/GrSpec.v): judges the implementation's observations
     def oracle(self, c, obs):
@@ -288,7 +317,7 @@ class Prop:
             if any(b for _, b in obs):
                 return ('gr', json.dumps(obs))
             return None
-        if any(any(r[3] or r[4] for r in rs) for _, _, _, rs in obs):
+        if any(any(r[3] or r[4] for r in o[3]) for o in obs):
             return ('h', json.dumps(obs))
         return None
 
@@ -333,7 +362,7 @@ def oracle_h(c, obs):
     admin = False
     prev = [0, 0, [], []]
     for k, (e, o) in enumerate(zip(evs, obs)):
-        restarting, rt, lts, routes = o
+        restarting, rt, lts, routes = o[:4]
         t = e[0]
         if t == 'admin':
             admin = e[1]
